@@ -11,13 +11,13 @@ FUNCTIONS = ["StockDrivenDSM._compute_inflow_manual", "StockDrivenDSM._compute_i
 ASSUMPTIONS = ["every cohort's first-interval survival share >= 1/20 (the property's precondition)", "time items strictly increasing",
                "scipy.linalg.solve_triangular satisfies its documented contract (fresh x with tri(a) x = b); LAPACK itself is trusted"]
 OUTSIDE = ["n beyond the bound", "IEEE rounding / conditioning of the triangular solve"]
-VARIANTS = 'arrays as transposed views; shared lifetime object re-parameterised between the constructions; stock-driven model computed (and read) before; 17 and 33 time items on concrete 0/1 tables; the inflow-driven model converted from the computed stock-driven one / computed before / built on filled arrays; a label dimension lettered c and as long as the time dimension'
+VARIANTS = 'converted_real: shipped lifetime classes with non-default settings, the second model obtained with to_stock_type; arrays as transposed views; shared lifetime object re-parameterised between the constructions; stock-driven model computed (and read) before; 17 and 33 time items on concrete 0/1 tables; the inflow-driven model converted from the computed stock-driven one / computed before / built on filled arrays; a label dimension lettered c and as long as the time dimension'
 BOUNDS = {"quick": dict(n=[3, 4], extra=["-", "r2"], grids=dsm.GRIDS), "thorough": dict(n=[3, 4, 5, 6], extra=["-", "r2", "r2xp2"], grids=dsm.GRIDS)}
 for _t in BOUNDS.values():
     _t["variants_beyond_the_base_enumeration"] = VARIANTS
 # dtype shadow: every shadowed configuration is run once more on integer-dtype arrays (differential concrete run)
 # (not where the harness makes an input array the result buffer of the other model: an integer buffer would truncate the results)
-DTYPE_SHADOW = lambda cfg: cfg["h"] != "fixed_concrete" and not cfg.get("idsm")
+DTYPE_SHADOW = lambda cfg: cfg["h"] not in ("fixed_concrete", "converted_real") and not cfg.get("idsm")
 OPTS = {"quick": dict(shadow_every=3, timeout_ms=20000), "thorough": dict(shadow_every=5, timeout_ms=120000)}
 
 
@@ -67,6 +67,14 @@ def configs(tier, seed):
             for extra in ({}, {"r": 2}):
                 ek = "x".join(f"{l}{k}" for l, k in extra.items()) or "-"
                 out.append(dict(h="shared_lifetime", op=solver + first, key=f"shared_lifetime/{solver}/built_first={first}/extra={ek}", solver=solver, first=first, grid="uneven", n=3, extra=extra))
+    # the shipped lifetime classes with non-default settings, the second model obtained with to_stock_type (which must hand
+    # over the lifetime model with its settings): inflow-driven -> stock-driven and back
+    for solver in ("manual", "lapack"):
+        for lt, prm in (("NormalLifetime", ["mean", "std"]), ("FixedLifetime", ["mean"])):
+            for ia, npts in (("end", 1), ("start", 1), ("middle", 2)):
+                if tier == "quick" and lt == "FixedLifetime" and ia == "start":
+                    continue
+                out.append(dict(h="converted_real", op=solver + lt, key=f"converted_real/{solver}/{lt}/{ia}{npts}", solver=solver, lt=lt, prm=prm, inflow_at=ia, npts=npts, grid="uneven", n=3, extra={"r": 2}))
     from checks.c09 import FIXED_SCHEDULES
 
     for sched in FIXED_SCHEDULES:
@@ -97,6 +105,14 @@ def _cmp(w, tag, a, b, chain=True):
         w.ob_eq(f"{tag}{list(idx)}", a[idx], b[idx], chain=chain)
 
 
+def _zeros(w, shape):
+    if w.sym:
+        from svx.sym import SymArr
+
+        return np.zeros(shape, dtype=object).view(SymArr)
+    return np.zeros(shape)
+
+
 def _fixed_roundtrip(w, st, tab, dt, dims):
     """stock-driven result on exactly-0/1 survival tables: the found inflow reproduces the prescribed stock when it
     drives an inflow-driven model, cohort tables included (stocks implying negative inflow included: all values free)"""
@@ -119,6 +135,31 @@ def run(cfg, w):
     y, dt, b = dsm.make_grid(w, n, cfg["grid"])
     dims = dsm.make_dims(y, extra)
     shape = dims.shape
+    if cfg["h"] == "converted_real":
+        import flodym.lifetime_models as lm
+        from flodym.stocks import StockDrivenDSM, InflowDrivenDSM
+
+        prm = {}
+        for name in cfg["prm"]:
+            prm[name] = w.real("prm_" + name, default={"mean": 3.0, "std": 1.0}[name])
+            w.assume(w.gt(prm[name], 0))
+        lifetime = getattr(lm, cfg["lt"])(dims=dims, inflow_at=cfg["inflow_at"], n_pts_per_interval=cfg["npts"], **prm)
+        I = w.arr("in", shape)
+        w.set_scale(I)
+        a = dsm.build_stock("idsm", dims, lifetime=lifetime, inflow=I)
+        a.compute()
+        want = {k: np.array(v, dtype=object if w.sym else float, copy=True) for k, v in dict(stock=a.stock.values, outflow=a.outflow.values, sbc=a.get_stock_by_cohort(), obc=a.get_outflow_by_cohort()).items()}
+        s = a.to_stock_type(StockDrivenDSM, solver=cfg["solver"])
+        w.ob("converted_model_is_stock_driven", type(s) is StockDrivenDSM)
+        w.ob("converted_model_keeps_the_lifetime_settings", s.lifetime_model.inflow_at == cfg["inflow_at"] and s.lifetime_model.n_pts_per_interval == cfg["npts"])
+        # the converted model starts from the computed arrays; its inflow is overwritten by what it finds
+        s.inflow.set_values(_zeros(w, shape))
+        s.compute()
+        _cmp(w, "inflow_recovered", s.inflow.values, I)
+        _cmp(w, "same_outflow", s.outflow.values, want["outflow"])
+        _cmp(w, "same_stock_by_cohort", s.get_stock_by_cohort(), want["sbc"])
+        _cmp(w, "same_outflow_by_cohort", s.get_outflow_by_cohort(), want["obc"])
+        return
     tab = dsm.sf_table(w, n, shape[1:], constrain=("range",), diag_min=0.05)
     lt = lambda: dsm.AnyLifetime(dims=dims, table=tab)
     h = cfg["h"]
